@@ -50,6 +50,7 @@ type Prog struct {
 	SSAPkgs map[string]*ssa.Package
 	ModPath string // module path of the root module (e.g. storj.io/drpc)
 	Norm    *NormReport
+	Ren     *Renames
 
 	cgOnce sync.Once
 	cg     *callgraph.Graph
@@ -148,7 +149,9 @@ func Load(cfg Config) (*Prog, error) {
 		}
 		return nil, fmt.Errorf("load %s: package errors: %s", cfg, strings.Join(errsFound, "; "))
 	}
-	p := &Prog{Cfg: cfg, Fset: fset, Norm: norm, ByPath: map[string]*packages.Package{}, SSAPkgs: map[string]*ssa.Package{}}
+	ren := FindRenames(roots)
+	canon = ren
+	p := &Prog{Cfg: cfg, Fset: fset, Norm: norm, Ren: ren, ByPath: map[string]*packages.Package{}, SSAPkgs: map[string]*ssa.Package{}}
 	packages.Visit(roots, nil, func(pk *packages.Package) {
 		p.Pkgs = append(p.Pkgs, pk)
 		p.ByPath[pk.PkgPath] = pk
@@ -306,6 +309,11 @@ func (p *Prog) Field(pkg, typ, path string) (*types.Var, error) {
 				break
 			}
 		}
+		if fv == nil && p.Ren != nil {
+			if nt, ok := deref(t).(*types.Named); ok && nt.Obj().Pkg() != nil {
+				fv = p.Ren.Fields[nt.Obj().Pkg().Path()+"\t"+nt.Obj().Name()+"\t"+part]
+			}
+		}
 		if fv == nil {
 			return nil, &Unresolved{fmt.Sprintf("%s.%s.%s (no field %s)", pkg, typ, path, part)}
 		}
@@ -340,6 +348,22 @@ func (p *Prog) Func(pkg, name string) (*ssa.Function, error) {
 
 // FuncObj resolves a function or method object.
 func (p *Prog) FuncObj(pkg, name string) (*types.Func, error) {
+	f, err := p.funcObj(pkg, name)
+	if err != nil && p.Ren != nil {
+		if tp, e2 := p.TypePkg(pkg); e2 == nil {
+			key := name
+			key = strings.Replace(key, "(*", "", 1)
+			key = strings.Replace(key, "(", "", 1)
+			key = strings.Replace(key, ")", "", 1)
+			if nf, ok := p.Ren.Funcs[tp.Path()+"\t"+key]; ok {
+				return nf, nil
+			}
+		}
+	}
+	return f, err
+}
+
+func (p *Prog) funcObj(pkg, name string) (*types.Func, error) {
 	tp, err := p.TypePkg(pkg)
 	if err != nil {
 		return nil, err
@@ -505,7 +529,23 @@ func ShortFunc(fn *ssa.Function) string {
 	if fn == nil {
 		return "<nil>"
 	}
-	return fn.RelString(originPkg(fn))
+	s := fn.RelString(originPkg(fn))
+	if len(canon.CanonF) > 0 {
+		// a renamed function is reported (and looked up in reviewed tables) under its inventory name
+		top := fn
+		for top.Parent() != nil {
+			top = top.Parent()
+		}
+		if obj, ok := top.Object().(*types.Func); ok {
+			if old, ok := canon.CanonF[obj.Origin()]; ok && old != obj.Name() {
+				topS := top.RelString(originPkg(top))
+				if i := strings.LastIndex(topS, obj.Name()); i >= 0 {
+					s = topS[:i] + old + topS[i+len(obj.Name()):] + s[len(topS):]
+				}
+			}
+		}
+	}
+	return s
 }
 
 // FileOf returns the syntax file containing pos.
